@@ -307,11 +307,18 @@ func (c *Classifier) Normalize(in []byte) []byte {
 // classifier.
 func (c *Classifier) LoadLicenses(dir string) error {
 	var files []string
-	err := filepath.Walk(dir, func(path string, info os.FileInfo, err error) error {
+	// Walk does not follow a symbolic link it is given as the root, but it does
+	// enter it when the root is spelled with a trailing separator.
+	root := dir
+	if sep := string(os.PathSeparator); root != "" && !strings.HasSuffix(root, sep) {
+		root += sep
+	}
+	err := filepath.Walk(root, func(path string, info os.FileInfo, err error) error {
 		if err != nil {
 			return nil
 		}
-		if !strings.HasSuffix(path, "txt") {
+		// A directory is not a corpus file, whatever its name ends in.
+		if info.IsDir() || !strings.HasSuffix(path, "txt") {
 			return nil
 		}
 		files = append(files, path)
